@@ -486,7 +486,7 @@ def correspondence(ctx, thorough):
     jobs = []          # (label, obj, typ)
     for lab, o, t in real_objects(ctx, thorough):
         jobs.append((lab, o, t))
-    n_prog = 260 if thorough else 90
+    n_prog = 260 if thorough else 60
     for i in range(n_prog):
         o, t = gen_object(rng, malformed=(i % 4 == 3))
         jobs.append(('gen%s%d' % ('M' if i % 4 == 3 else '', i), o, t))
@@ -520,7 +520,7 @@ def correspondence(ctx, thorough):
     for lab, t, r, exc, o in recs[:: max(1, len(recs) // 8)]:
         ctx.note_sample({'object': lab, 'type': t, 'arch': o.arch.name,
                          'impl': ('%d bytes' % len(r.v)) if isinstance(r, OkV) else type(exc).__name__})
-    bad = ctx.run_cases('elfwriter', ['Model.ElfWriter'], cases, shard=30)
+    bad = ctx.run_cases('elfwriter', ['Model.ElfWriter'], cases, shard=16)
     if bad:
         for i in bad[:5]:
             lab, t, r, exc, o = recs[i]
@@ -529,7 +529,9 @@ def correspondence(ctx, thorough):
         lab, t, r, exc, o = recs[bad[0]]
         ctx.failed_stages.append(('correspondence', 'Model.ElfWriter.write_elf disagrees with ppci.format.elf.write_elf '
                                   'on %d of %d objects, first: %s (%s, %s)' % (len(bad), len(cases), lab, o.arch.name, t)))
-    rbad = ctx.run_cases('elfreader', ['Model.ElfWriter', 'Spec.ElfSpec', 'Proofs.C17_recover'], rcases, shard=30)
+    if not thorough:            # quick tier: every second object (the files of executables are page padded, slow)
+        rcases, rrecs = rcases[::2], rrecs[::2]
+    rbad = ctx.run_cases('elfreader', ['Model.ElfWriter', 'Spec.ElfSpec', 'Proofs.C17_recover'], rcases, shard=12)
     ctx.cov['stages']['reader_validation'] = {'objects': len(rcases), 'disagree': len(rbad or [])}
     if rbad:
         for i in rbad[:5]:
